@@ -162,7 +162,16 @@ func (c *checker) checkStarted(s *server, e *sim.Ev) {
 	}
 	// the snapshot position it works from names an entry of the committed history: a restart
 	// must not resume with a last-entry term the cluster never had at that index
-	if si, stt := e.E, e.F; si > 0 {
+	ownRestore := false
+	for _, u := range c.userRestores {
+		if u.key.s == s.name && u.burned == e.E {
+			// the snapshot this server wrote for its own user Restore sits at an index it burned; when
+			// that restore was never replicated the cluster has something else there (S12), which is
+			// not a matter of crash recovery
+			ownRestore = true
+		}
+	}
+	if si, stt := e.E, e.F; si > 0 && !ownRestore {
 		c.cov("restart-snapshot-position-checked")
 		if en, ok := d.logs[si]; ok && en.T != stt {
 			c.violate("C10", "restart-wrong-snapshot-term", e.Seq, "%s restarted with snapshot position (%d, term %d) but its own log holds term %d at that index", key, si, stt, en.T)
